@@ -331,7 +331,7 @@ Definition ident_live (w : world) (x : model) (key : list N) : option id :=
   | None => None
   end.
 
-(* the overlap check that runs before anything is modified (fixes 9d6ce2a, 3c33b6d): every path of the new data
+(* the overlap check that runs before anything is modified (fixes b692965, 9e78914): every path of the new data
    (oldest first) must be new in this file, and if the model's index has a live element for it, of the same kind *)
 Fixpoint overlap_check (w : world) (x : model) (t : itree) (l : list (list N * list nat)) (new_paths : list (list N))
   : res bool :=
